@@ -452,3 +452,112 @@ Example C05_example_two_loads :
   | _ => False
   end.
 Proof. vm_compute. split; reflexivity. Qed.
+
+(* ---- wave 7: the load line pycaption's own SCCWriter produces ------------------------------------------------------
+   (a) the INDENT form of the preamble address code with indent 0 (attributes 16 / 17, second byte 0x50 / 0x70) is a row
+       of the program type (rw_style 16 / 17 at indent 0; row_ok admits it, so every theorem above covers it);
+   (b) Erase-Displayed-Memory INSIDE the load line, before its End-Of-Caption:  ENM RCL rows EDM EOC. ------------------ *)
+From PV Require Import spec.SpecScc05Inline proofs.SccInlineEdmFacts.
+
+(* the display side of the reader state (stash, pop-on queue, self.time, timecode string) is neither read nor written by
+   a word other than RDC / RU2 / RU3 / RU4 / EOC / CR / EDM while pop-on is the active mode: for ALL states and words *)
+Theorem C05_quiet_word_frame : forall x st q tm tc w n, r_active x = MPop -> quiet w = true ->
+  translate_word (fr_set x st q tm tc) w n = fr_set (translate_word x w n) st q tm tc.
+Proof. exact frame_tw. Qed.
+Print Assumptions C05_quiet_word_frame.
+(* every word of a well-formed load (rows of load_wf: preamble codes incl. the indent-0 form, tab offsets, characters,
+   special / extended characters, mid-row codes, backspace; single or doubled) is such a word *)
+Theorem C05_load_words_quiet : forall d l, load_wf l = true -> forallb quiet (flat_map (emit_row d) l) = true.
+Proof. exact load_quiet. Qed.
+Print Assumptions C05_load_words_quiet.
+(* from ANY pop-on state: the one line  tc: ENM RCL body EDM EOC  leaves the reader where the two lines
+   tcE: EDM | tcL: ENM RCL body EOC  leave it (up to the representation of the clock), for every quiet body, when tcE / tcL
+   denote the instants the EDM / EOC words have on the one line *)
+Theorem C05_inline_edm : forall d s tc tcE tcL body',
+  r_err s = None -> r_active s = MPop -> last_is (r_last s) w_enm = false ->
+  (last_is (r_last s) w_edm = false \/ r_queue s = None) ->
+  forallb quiet body' = true ->
+  same_clock (r_offset s) tc (Z.of_nat (length (ctl d w_enm ++ ctl d w_rcl ++ body'))) tcE ->
+  same_clock (r_offset s) tc (if d then 2 else 1) tcL ->
+  r_err (translate_line (translate_line s (tcE, ctl d w_edm)) (tcL, (ctl d w_enm ++ ctl d w_rcl ++ body') ++ ctl d w_eoc)) = None ->
+  state_eq (translate_line s (tc, (ctl d w_enm ++ ctl d w_rcl ++ body') ++ ctl d w_edm ++ ctl d w_eoc))
+           (translate_line (translate_line s (tcE, ctl d w_edm)) (tcL, (ctl d w_enm ++ ctl d w_rcl ++ body') ++ ctl d w_eoc)).
+Proof. exact inline_edm. Qed.
+Print Assumptions C05_inline_edm.
+(* whole streams mixing lines of the old layout and writer-style load lines read like the expanded stream *)
+Theorem C05_read_inline : forall d off ws evs, Forall (wseg_clock d off) ws -> forallb pseg_ok8 (wexpand ws) = true ->
+  res_map (pseg_event d off) (wexpand ws) = Ok evs ->
+  read off (map (wseg_line d) ws) = read off (map (pseg_line d) (wexpand ws)).
+Proof. exact read_wsegs. Qed.
+Print Assumptions C05_read_inline.
+(* THE REFINEMENT THEOREM FOR THE WRITER'S LAYOUT (the lemma builder sccw composes with): every load satisfies load_wf
+   (pseg_ok8), the display events - for a writer-style line: Clear at the instant of its EDM, Show at the instant of its
+   EOC - are positive and ordered as in popon_refines_608 *)
+Theorem C05_popon_refines_608_inline : forall d off ws evs spans,
+  Forall (wseg_clock d off) ws -> forallb pseg_ok8 (wexpand ws) = true ->
+  res_map (pseg_event d off) (wexpand ws) = Ok evs -> positive evs -> after_show None evs ->
+  expected_with join_threshold evs = Ok spans ->
+  exists caps, read off (map (wseg_line d) ws) = ROk caps /\
+               ok_c05 (mkProg d (ploads_of (wexpand ws))) (Ok (map observe caps)) = true /\
+               dom_c05 (mkProg d (ploads_of (wexpand ws))) = true.
+Proof. exact popon_refines_608_inline. Qed.
+Print Assumptions C05_popon_refines_608_inline.
+(* for a rendered timecode the two side timecodes exist: winline d t l = WInline (render_tc t) ... *)
+Theorem C05_same_clock_shift : forall off t n, tc_wf t = true -> 0 <= n -> tc_total t + n < 10800000 ->
+  same_clock off (render_tc t) n (render_tc (tc_shift t n)).
+Proof. exact same_clock_shift. Qed.
+Print Assumptions C05_same_clock_shift.
+Theorem C05_winline_clock : forall d off t l, tc_wf t = true ->
+  tc_total t + Z.of_nat (length (load_body d l)) + 2 < 10800000 -> wseg_clock d off (winline d t l).
+Proof. exact winline_clock. Qed.
+Print Assumptions C05_winline_clock.
+(* non-vacuity: the words SCCWriter writes for "Hi\nthere" and "bye" (attribute-16 preamble codes, EDM EDM EOC EOC inside
+   the line, the second load directly after the first), hypotheses hold, the model's read satisfies ok_c05 *)
+Example C05_inline_instance_lines : map (wseg_line true) exw_ws =
+  [ (lit "00:00:01:00", [38062; 38062; 37920; 37920; 38096; 38096; 51433; 38000; 38000; 62568; 58866; 58752; 37932; 37932; 37935; 37935]);
+    (lit "00:00:02:27", [38062; 38062; 37920; 37920; 38000; 38000; 25209; 58752; 37932; 37932; 37935; 37935]);
+    (lit "00:00:05:00", [37932; 37932]) ].
+Proof. exact exw_lines. Qed.
+Example C05_inline_instance_hyps : Forall (wseg_clock true 0) exw_ws /\ forallb pseg_ok8 (wexpand exw_ws) = true.
+Proof. exact exw_hyps. Qed.
+Example C05_inline_instance_runs :
+  match res_map (pseg_event true 0) (wexpand exw_ws) with
+  | Ok evs => match read 0 (map (wseg_line true) exw_ws) with
+              | ROk caps => ok_c05 (mkProg true [exw_l1; exw_l2]) (Ok (map observe caps)) && Nat.eqb (length caps) 2
+              | _ => false
+              end
+  | Err _ => false
+  end = true.
+Proof. exact exw_runs. Qed.
+(* the attribute-16 / 17 rows are inside the domain of every theorem stated with load_wf / row_ok *)
+Example C05_indent0_form_in_domain :
+  row_ok (mkRow 15 0 0 16 [Ch 97]) = true /\ row_ok (mkRow 1 0 2 17 [Ch 97; Mid 14; Ch 98]) = true /\
+  emit_row true (mkRow 15 0 0 16 [Ch 97]) = [38000; 38000; 24960].
+Proof. vm_compute. repeat split; reflexivity. Qed.
+(* ... and at the level of the SCC TEXT, through the Coq tokeniser (upper / lower hex, LF / CRLF / CR) *)
+From PV Require Import proofs.SccInlineCorFacts.
+Theorem C05_popon_refines_608_inline_text : forall d off ws evs spans up eol,
+  Forall (wseg_clock d off) ws -> forallb pseg_ok8 (wexpand ws) = true ->
+  res_map (pseg_event d off) (wexpand ws) = Ok evs -> positive evs -> after_show None evs ->
+  expected_with join_threshold evs = Ok spans ->
+  Forall wf_sline (map (wseg_line d) ws) -> good_eol eol ->
+  exists caps, read off (tokenise (render_gen up eol (map (wseg_line d) ws))) = ROk caps /\
+               ok_c05 (mkProg d (ploads_of (wexpand ws))) (Ok (map observe caps)) = true /\
+               dom_c05 (mkProg d (ploads_of (wexpand ws))) = true.
+Proof. exact popon_refines_608_inline_text. Qed.
+Print Assumptions C05_popon_refines_608_inline_text.
+
+(* for builder sccw: a non-empty row of at most 32 basic characters without a blank at either end, addressed by the writer's
+   preamble code (indent-0 form, attribute 16 / 17) on rows 1-15, is a row of the domain, and its words are the preamble code
+   twice followed by the characters in pairs *)
+Theorem C05_writer_row_ok : forall row u line, 1 <= row <= 15 -> (u = 16 \/ u = 17) -> forallb is_basic line = true ->
+  line <> [] -> hd 0 line <> 32 -> last line 0 <> 32 -> (length line <= 32)%nat ->
+  row_ok (mkRow row 0 0 u (map Ch line)) = true.
+Proof. exact writer_row_ok. Qed.
+Print Assumptions C05_writer_row_ok.
+Theorem C05_writer_row_emit : forall row u line,
+  emit_row true (mkRow row 0 0 u (map Ch line)) = [pac_word row u; pac_word row u] ++ pack true (map TCh line) None.
+Proof. exact writer_row_emit. Qed.
+Print Assumptions C05_writer_row_emit.
+Example C05_writer_row_instance : row_ok (mkRow 15 0 0 16 (map Ch [72; 105; 32; 116; 104; 101; 114; 101])) = true.
+Proof. exact writer_row_instance. Qed.
